@@ -7,7 +7,7 @@ from hypothesis import strategies as st
 from pbt import strategies as S
 from pbt.common import Stats, Sub, Violation
 from pbt.model import Model
-from pbt.sut import curies, mk_converter, mk_incremental_queried
+from pbt.sut import curies, mk_converter, mk_incremental_queried, mk_split_merge
 
 PROPERTY_ID = "C02"
 RULE = (
@@ -125,6 +125,7 @@ def check(case, stats: Stats) -> None:
 
     inc = mk_incremental_queried(spec, list(reversed(range(n))), queries)
     _check_on(inc, case, stats, "built incrementally with interleaved queries", False)
+    _check_on(mk_split_merge(spec), case, stats, "built by merging whole records that are named after a synonym", False)
 
 
 SUBS = [
